@@ -143,6 +143,19 @@ Definition aexit_pre (s : st) (t : tid) (g : gid) (ws : option sid) : Prop :=
   | None => owns s t gs
   end.
 
+Lemma ctl_ret_pair (p : st * res) t : k_ctl (tasks (fst (let '(s2, r) := p in ret_to_puppet s2 t r)) t) = CIdle.
+Proof.
+  destruct p as [s2 r]. unfold ret_to_puppet, park. cbn [fst set_running].
+  match goal with |- context [new_fut ?a] => rewrite (new_fut_eq a) end. tcase t t; [reflexivity|contradiction].
+Qed.
+
+Lemma wof_finishes_ctl s t g ws exc : g_tasks (groups s g) = [] ->
+  k_ctl (tasks (fst (aexit_wait_or_finish s t g ws exc)) t) = CIdle.
+Proof.
+  intros Ht. unfold aexit_wait_or_finish. rewrite Ht. destruct ws as [w|]; [|apply ctl_ret_pair].
+  destruct (scope_exit s w t None) as [s1 x]. destruct x; apply ctl_ret_pair.
+Qed.
+
 Lemma wof_finishes s t g ws exc : aexit_pre s t g ws -> g_tasks (groups s g) = [] ->
   s_active (scopes (fst (aexit_wait_or_finish s t g ws exc)) (g_scope (groups s g))) = false.
 Proof.
@@ -164,26 +177,31 @@ Lemma wof_blocks s t g ws exc : aexit_pre s t g ws -> g_tasks (groups s g) <> []
   let s' := fst (aexit_wait_or_finish s t g ws exc) in
   let gs := g_scope (groups s g) in
   exists w', k_ctl (tasks s' t) = CAexitWait g w' exc /\ s_active (scopes s' gs) = true /\
-             s_host (scopes s' gs) = Some t /\ s_parent (scopes s' w') = Some gs /\ w' <> gs.
+             s_host (scopes s' gs) = Some t /\ s_parent (scopes s' w') = Some gs /\ w' <> gs /\
+             g_left (groups s' g) = g_left (groups s g).
 Proof.
   intros P Ht. cbn zeta. unfold aexit_wait_or_finish. destruct (g_tasks (groups s g)) as [|a l]; [contradiction|].
   assert (Hb : forall s0 w, scopes s0 = scopes s0 ->
      let r := fst (let '(s1, f) := new_fut s0 in
                    blocked (set_ctl (suspend_on (upd_group s1 g (gr_fut (Some f))) t f) t (CAexitWait g w exc))) in
-     k_ctl (tasks r t) = CAexitWait g w exc /\ scopes r = scopes s0).
-  { intros s0 w _. cbn zeta. rewrite new_fut_eq. split.
+     k_ctl (tasks r t) = CAexitWait g w exc /\ scopes r = scopes s0 /\ g_left (groups r g) = g_left (groups s0 g)).
+  { intros s0 w _. cbn zeta. rewrite new_fut_eq. refine (conj _ (conj _ _)).
     - cbn [blocked fst]. tcase t t; [reflexivity|contradiction].
-    - cbn [blocked fst set_running set_ctl upd_task set_tasks scopes]. now rewrite scopes_suspend_on. }
+    - cbn [blocked fst set_running set_ctl upd_task set_tasks scopes]. now rewrite scopes_suspend_on.
+    - cbn [blocked fst set_running set_ctl upd_task set_tasks groups]. rewrite groups_suspend_on.
+      cbn [upd_group set_groups groups]. rewrite upd_same. reflexivity. }
   destruct ws as [w|].
-  - destruct P as [O [Hp [Hne [Ha [Hh Hlt]]]]]. destruct (Hb s w eq_refl) as [H1 H2]. lazy beta iota.
-    exists w. rewrite H1, H2. auto.
+  - destruct P as [O [Hp [Hne [Ha [Hh Hlt]]]]]. destruct (Hb s w eq_refl) as [H1 [H2 H3]]. lazy beta iota.
+    exists w. rewrite H1, H2, H3. auto 10.
   - rewrite new_scope_eq. lazy beta iota. cbn [fst].
     set (s0 := fst (scope_enter (ns s None false) (nscope s) t)).
-    destruct (Hb s0 (nscope s) eq_refl) as [H1 H2]. exists (nscope s). rewrite H1, H2.
+    destruct (Hb s0 (nscope s) eq_refl) as [H1 [H2 H3]]. exists (nscope s). rewrite H1, H2, H3.
+    assert (Hgl : g_left (groups s0 g) = g_left (groups s g)) by (unfold s0; now rewrite groups_scope_enter).
+    rewrite Hgl.
     destruct P as [Ha [Hh [Hc Hlt]]].
     assert (Hne : g_scope (groups s g) <> nscope s) by lia.
     destruct (scope_enter_other (ns s None false) (nscope s) t (g_scope (groups s g)) Hne) as [E1 [E2 _]].
     unfold s0. rewrite E1, E2, ns_scope_old; [|exact Hne].
     rewrite scope_enter_parent; [|apply ns_inactive].
-    change (tasks (ns s None false)) with (tasks s). refine (conj eq_refl (conj Ha (conj Hh (conj Hc _)))). lia.
+    change (tasks (ns s None false)) with (tasks s). refine (conj eq_refl (conj Ha (conj Hh (conj Hc (conj _ eq_refl))))). lia.
 Qed.
